@@ -22,11 +22,13 @@ class Trig (K : Type) where
   cos   : K → K
   atan2 : K → K → K      -- atan2 y x
   acos  : K → K
+  tan   : K → K
   pi    : K              -- M_PI
 
 instance : Trig Float where
   sin := Float.sin
   cos := Float.cos
+  tan := Float.tan
   atan2 := Float.atan2
   acos := Float.acos
   pi := 3.14159265358979323846
